@@ -56,12 +56,18 @@ theorem SameStatic.trans {a b c : Graph V} (h1 : SameStatic a b) (h2 : SameStati
 theorem SameStatic.symm {a b : Graph V} (h1 : SameStatic a b) : SameStatic b a :=
   fun j => (h1 j).symm
 
-theorem WF.of_static {g g' : Graph V} (h : WF g) (hs : SameStatic g' g) : WF g' := by
+theorem Ranked.of_static {rank : Nat → Nat} {F : Nat} {g g' : Graph V} (h : Ranked rank F g) (hs : SameStatic g' g) :
+    Ranked rank F g' := by
+  refine ⟨h.1, ?_⟩
   intro i s hi d hd
   have h1 := hs i
   rw [hi] at h1
   obtain ⟨t, ht, -, -, -, hdeps⟩ := StaticEq.struct_right h1
-  exact h i t ht d (hdeps ▸ hd)
+  exact h.2 i t ht d (hdeps ▸ hd)
+
+theorem Acyclic.of_static {F : Nat} {g g' : Graph V} (h : Acyclic F g) (hs : SameStatic g' g) : Acyclic F g' := by
+  obtain ⟨rank, hr⟩ := h
+  exact ⟨rank, hr.of_static hs⟩
 
 theorem executed_deps (s : SNode V) (g1 : Graph V) (vals : List V) : (s.executed g1 vals).deps = s.deps := rfl
 
@@ -227,9 +233,12 @@ theorem sum_eq_pointwise (ds : List Nat) (f g : Nat → Nat) (hle : ∀ d ∈ ds
     · omega
     · exact ih hle' (by omega) e he
 
-/-! ### fuel independence under `WF` -/
+/-! ### fuel independence on ranked graphs -/
 
-theorem outdated_fuel (g : Graph V) (hwf : WF g) (f1 f2 i : Nat) (h1 : i < f1) (h2 : i < f2) :
+section
+variable {rank : Nat → Nat} {F : Nat}
+
+theorem outdated_fuel (g : Graph V) (hwf : Ranked rank F g) (f1 f2 i : Nat) (h1 : rank i < f1) (h2 : rank i < f2) :
     outdated f1 g i = outdated f2 g i := by
   induction f1 generalizing f2 i with
   | zero => omega
@@ -246,10 +255,10 @@ theorem outdated_fuel (g : Graph V) (hwf : WF g) (f1 f2 i : Nat) (h1 : i < f1) (
         · congr 1
           apply mismatch_congr
           intro d hd
-          have := hwf i s hs d hd
+          have := hwf.2 i s hs d hd
           exact ⟨rfl, ih f2 d (by omega) (by omega)⟩
 
-theorem evalSpec_fuel (g : Graph V) (hwf : WF g) (f1 f2 i : Nat) (h1 : i < f1) (h2 : i < f2) :
+theorem evalSpec_fuel (g : Graph V) (hwf : Ranked rank F g) (f1 f2 i : Nat) (h1 : rank i < f1) (h2 : rank i < f2) :
     evalSpec f1 g i = evalSpec f2 g i := by
   induction f1 generalizing f2 i with
   | zero => omega
@@ -264,7 +273,7 @@ theorem evalSpec_fuel (g : Graph V) (hwf : WF g) (f1 f2 i : Nat) (h1 : i < f1) (
         congr 1
         apply List.map_congr_left
         intro d hd
-        have := hwf i s hs d hd
+        have := hwf.2 i s hs d hd
         exact ih f2 d (by omega) (by omega)
 
 theorem pull_congr (ev ev' : Graph V → Nat → Graph V × Log) (g : Graph V) (ds : List Nat)
@@ -279,7 +288,7 @@ theorem pull_congr (ev ev' : Graph V → Nat → Graph V × Log) (g : Graph V) (
     rw [← h0]
     rw [ih (ev g d).1 (fun g' hg' e he => h g' (hg'.trans (hst g d)) e (List.mem_cons_of_mem _ he))]
 
-theorem eval_fuel (g : Graph V) (hwf : WF g) (f1 f2 i : Nat) (h1 : i < f1) (h2 : i < f2) :
+theorem eval_fuel (g : Graph V) (hwf : Ranked rank F g) (f1 f2 i : Nat) (h1 : rank i < f1) (h2 : rank i < f2) :
     eval f1 g i = eval f2 g i := by
   induction f1 generalizing f2 i g with
   | zero => omega
@@ -296,18 +305,19 @@ theorem eval_fuel (g : Graph V) (hwf : WF g) (f1 f2 i : Nat) (h1 : i < f1) (h2 :
           apply pull_congr
           · intro g d; exact eval_static f1 g d
           · intro g' hg' d hd
-            have := hwf i s hs d hd
+            have := hwf.2 i s hs d hd
             exact ih g' (hwf.of_static hg') f2 d (by omega) (by omega)
         rw [hp]
 
-/-! ### fuel-free unfolding equations -/
+/-! ### fuel-free unfolding equations (fuel `F` never runs out on a graph ranked below `F`) -/
 
-theorem Outdated_eq (g : Graph V) (hwf : WF g) (i : Nat) :
-    Outdated g i = match g i with
+theorem Outdated_eq (g : Graph V) (hwf : Ranked rank F g) (i : Nat) :
+    Outdated F g i = match g i with
       | .param _ _ => false
       | .struct s => match s.remembered with
         | none => true
-        | some rv => s.flag || mismatch g (Outdated g) s.deps rv := by
+        | some rv => s.flag || mismatch g (Outdated F g) s.deps rv := by
+  obtain ⟨F', rfl⟩ : ∃ F', F = F' + 1 := ⟨F - 1, by have := hwf.1 i; omega⟩
   cases hs : g i with
   | param x v => simp [Outdated, outdated, hs]
   | struct s =>
@@ -318,13 +328,15 @@ theorem Outdated_eq (g : Graph V) (hwf : WF g) (i : Nat) :
       congr 1
       apply mismatch_congr
       intro d hd
-      have := hwf i s hs d hd
+      have := hwf.2 i s hs d hd
+      have := hwf.1 i
       exact ⟨rfl, outdated_fuel g hwf _ _ d (by omega) (by omega)⟩
 
-theorem Spec_eq (g : Graph V) (hwf : WF g) (i : Nat) :
-    Spec g i = match g i with
+theorem Spec_eq (g : Graph V) (hwf : Ranked rank F g) (i : Nat) :
+    Spec F g i = match g i with
       | .param x _ => x
-      | .struct s => s.fn s.scalars s.arrays (s.deps.map (Spec g)) := by
+      | .struct s => s.fn s.scalars s.arrays (s.deps.map (Spec F g)) := by
+  obtain ⟨F', rfl⟩ : ∃ F', F = F' + 1 := ⟨F - 1, by have := hwf.1 i; omega⟩
   cases hs : g i with
   | param x v => simp [Spec, evalSpec, hs]
   | struct s =>
@@ -332,30 +344,35 @@ theorem Spec_eq (g : Graph V) (hwf : WF g) (i : Nat) :
     congr 1
     apply List.map_congr_left
     intro d hd
-    have := hwf i s hs d hd
+    have := hwf.2 i s hs d hd
+    have := hwf.1 i
     exact evalSpec_fuel g hwf _ _ d (by omega) (by omega)
 
-theorem Eval_eq (g : Graph V) (hwf : WF g) (i : Nat) :
-    Eval g i = match g i with
+theorem Eval_eq (g : Graph V) (hwf : Ranked rank F g) (i : Nat) :
+    Eval F g i = match g i with
       | .param _ _ => (g, [])
       | .struct s =>
-        if Outdated g i then
-          let r := pull Eval g s.deps
+        if Outdated F g i then
+          let r := pull (Eval F) g s.deps
           (r.1.set i (.struct (s.executed r.1 r.2.1)), r.2.2 ++ [(i, s.version + 1)])
         else (g, []) := by
+  obtain ⟨F', rfl⟩ : ∃ F', F = F' + 1 := ⟨F - 1, by have := hwf.1 i; omega⟩
   cases hs : g i with
   | param x v => simp [Eval, eval, hs]
   | struct s =>
-    have hp : pull (fun g d => eval i g d) g s.deps = pull Eval g s.deps := by
+    have hp : pull (fun g d => eval F' g d) g s.deps = pull (Eval (F'+1)) g s.deps := by
       apply pull_congr
-      · intro g d; exact eval_static i g d
+      · intro g d; exact eval_static F' g d
       · intro g' hg' d hd
-        have := hwf i s hs d hd
+        have := hwf.2 i s hs d hd
+        have := hwf.1 i
         exact eval_fuel g' (hwf.of_static hg') _ _ d (by omega) (by omega)
     simp only [Eval, eval, hs]
     rw [hp]
     rfl
 
-theorem Eval_static (g : Graph V) (i : Nat) : SameStatic (Eval g i).1 g := eval_static _ g i
+end
+
+theorem Eval_static (F : Nat) (g : Graph V) (i : Nat) : SameStatic (Eval F g i).1 g := eval_static _ g i
 
 end PolyVerif.Nodes
